@@ -7,7 +7,9 @@ package main
 // environment, pointer values) and format verbs that print addresses.
 
 import (
+	"fmt"
 	"go/ast"
+	"go/constant"
 	"go/parser"
 	"go/token"
 	"go/types"
@@ -20,14 +22,40 @@ import (
 	"golang.org/x/tools/go/packages"
 )
 
-// clockFuncs: "import/path.Func" or "import/path.Type.Method" -> what it calls (time.Now / time.Since / time.Until)
+// clockFuncs: "import/path.Func" or "import/path.Type.Method" -> the root it reaches (time.Now / time.Since / time.Until,
+// math/rand.*, crypto/rand.*, os.Getenv …), possibly through further wrappers ("via <wrapper>")
 type clockSet map[string]string
+
+// rootCall classifies a call `alias.Name(…)` by the import path of alias: the primitive sources of values that are not a
+// function of the block history.
+func rootCall(path, name string) string {
+	switch path {
+	case "time":
+		if name == "Now" || name == "Since" || name == "Until" {
+			return "time." + name
+		}
+	case "math/rand", "math/rand/v2":
+		switch name {
+		case "New", "NewSource", "NewZipf", "NewPCG", "NewChaCha8": // explicitly seeded generators are functions of their seed
+			return ""
+		}
+		return path + "." + name
+	case "crypto/rand":
+		return path + "." + name
+	case "os":
+		switch name {
+		case "Getenv", "LookupEnv", "Environ", "ExpandEnv", "Hostname", "Getpid", "Getwd", "UserHomeDir", "TempDir", "Executable":
+			return "os." + name
+		}
+	}
+	return ""
+}
 
 func dependencyClockSources(pkgs []*packages.Package, repo string) clockSet {
 	paths := map[string]bool{}
 	for _, p := range pkgs {
 		for ip := range p.Imports {
-			if !strings.HasPrefix(ip, fxPrefix) && ip != "time" && ip != "C" && ip != "unsafe" {
+			if !strings.HasPrefix(ip, fxPrefix) && ip != "time" && ip != "C" && ip != "unsafe" && ip != "os" && ip != "math/rand" && ip != "crypto/rand" {
 				paths[ip] = true
 			}
 		}
@@ -49,6 +77,12 @@ func dependencyClockSources(pkgs []*packages.Package, repo string) clockSet {
 		return out
 	}
 	fset := token.NewFileSet()
+	type depFunc struct {
+		ip      string
+		fd      *ast.FuncDecl
+		imports map[string]string // local name -> import path
+	}
+	var funcs []depFunc
 	for _, line := range strings.Split(string(bz), "\n") {
 		parts := strings.SplitN(line, "\t", 2)
 		if len(parts) != 2 || parts[1] == "" {
@@ -68,44 +102,111 @@ func dependencyClockSources(pkgs []*packages.Package, repo string) clockSet {
 			if err != nil {
 				continue
 			}
-			timeName := ""
+			imports := map[string]string{}
 			for _, im := range f.Imports {
-				if im.Path.Value == `"time"` {
-					timeName = "time"
-					if im.Name != nil {
-						timeName = im.Name.Name
-					}
+				path := strings.Trim(im.Path.Value, "\"`")
+				name := path[strings.LastIndexByte(path, '/')+1:]
+				if name == "v2" || name == "v3" { // major-version suffix: the package name is the element before it
+					rest := strings.TrimSuffix(path, "/"+name)
+					name = rest[strings.LastIndexByte(rest, '/')+1:]
 				}
-			}
-			if timeName == "" || timeName == "_" {
-				continue
+				if im.Name != nil {
+					name = im.Name.Name
+				}
+				if name != "_" && name != "." {
+					imports[name] = path
+				}
 			}
 			for _, d := range f.Decls {
-				fd, ok := d.(*ast.FuncDecl)
-				if !ok || fd.Body == nil || !fd.Name.IsExported() {
-					continue
-				}
-				what := ""
-				ast.Inspect(fd.Body, func(m ast.Node) bool {
-					if _, isLit := m.(*ast.FuncLit); isLit {
-						return false // a closure that is only defined here (goroutine body, callback)
-					}
-					if call, ok := m.(*ast.CallExpr); ok {
-						if se, ok := call.Fun.(*ast.SelectorExpr); ok {
-							if id, ok := se.X.(*ast.Ident); ok && id.Name == timeName && (se.Sel.Name == "Now" || se.Sel.Name == "Since" || se.Sel.Name == "Until") {
-								what = "time." + se.Sel.Name
-							}
-						}
-					}
-					return what == ""
-				})
-				if what != "" {
-					out[ip+"."+funcName(fd)] = what
+				if fd, ok := d.(*ast.FuncDecl); ok && fd.Body != nil && fd.Name.IsExported() {
+					funcs = append(funcs, depFunc{ip, fd, imports})
 				}
 			}
 		}
 	}
+	// fixpoint: a function is a source if its body (closures excluded: goroutine bodies, callbacks defined here) calls a root
+	// or a known source — `alias.F(…)` resolved through the file's imports, `F(…)` inside its own package.  Method calls on
+	// values are not resolved without types (the shifted-clock replicas cover those).
+	for round := 0; round < 4; round++ {
+		changed := false
+		for _, df := range funcs {
+			key := df.ip + "." + funcName(df.fd)
+			if _, done := out[key]; done {
+				continue
+			}
+			what := ""
+			ast.Inspect(df.fd.Body, func(m ast.Node) bool {
+				if _, isLit := m.(*ast.FuncLit); isLit {
+					return false
+				}
+				call, ok := m.(*ast.CallExpr)
+				if !ok {
+					return what == ""
+				}
+				switch f := call.Fun.(type) {
+				case *ast.SelectorExpr:
+					if id, ok := f.X.(*ast.Ident); ok {
+						if path, ok := df.imports[id.Name]; ok {
+							if r := rootCall(path, f.Sel.Name); r != "" {
+								what = r
+							} else if w, ok := out[path+"."+f.Sel.Name]; ok {
+								what = rootOf(w) + " via " + path + "." + f.Sel.Name
+							}
+						}
+					}
+				case *ast.Ident:
+					if w, ok := out[df.ip+"."+f.Name]; ok && round > 0 {
+						what = rootOf(w) + " via " + f.Name
+					}
+				}
+				return what == ""
+			})
+			if what != "" {
+				out[key] = what
+				changed = true
+			}
+		}
+		if !changed {
+			break
+		}
+	}
+	if os.Getenv("VERIF_EXTRACTT_DEBUG") != "" {
+		hist := map[string]int{}
+		for k, w := range out {
+			hist[sourceKind(w)]++
+			if strings.Contains(w, " via ") {
+				hist["via"]++
+				if hist["via"] < 12 {
+					fmt.Fprintln(os.Stderr, "extractt: wrapper", k, "<-", w)
+				}
+			}
+		}
+		fmt.Fprintln(os.Stderr, "extractt: dependency sources", len(out), hist, "functions parsed", len(funcs))
+	}
 	return out
+}
+
+func rootOf(w string) string {
+	if i := strings.Index(w, " via "); i >= 0 {
+		return w[:i]
+	}
+	return w
+}
+
+// sourceKind: the inventory kind of a dependency source by its root.
+func sourceKind(what string) string {
+	r := rootOf(what)
+	switch {
+	case strings.HasPrefix(r, "time."):
+		return "timeNow"
+	case strings.HasPrefix(r, "math/rand") || strings.HasPrefix(r, "crypto/rand"):
+		return "rand"
+	case r == "os.Getpid":
+		return "procValue"
+	case strings.HasPrefix(r, "os."):
+		return "envRead"
+	}
+	return "procValue"
 }
 
 // processValueCalls: functions whose result is specific to the process / machine
@@ -116,6 +217,17 @@ var processValueCalls = map[string]bool{
 	"os.Getpid": true, "os.Getppid": true, "os.Hostname": true, "os.Getenv": true, "os.LookupEnv": true, "os.Environ": true,
 	"os.Getwd": true, "os.ExpandEnv": true, "os.Executable": true, "os.Getuid": true, "os.UserHomeDir": true, "os.TempDir": true,
 	"reflect.Value.Pointer": true, "reflect.Value.UnsafeAddr": true, "reflect.Value.UnsafePointer": true,
+}
+
+// procKind: environment reads and address values have their own inventory kinds
+func procKind(key string) string {
+	switch {
+	case strings.HasPrefix(key, "reflect."):
+		return "pointerFormat"
+	case strings.HasPrefix(key, "os.") && key != "os.Getpid" && key != "os.Getppid" && key != "os.Getuid":
+		return "envRead"
+	}
+	return "procValue"
 }
 
 // calleeKey returns "import/path.Func" / "import/path.Type.Method" of a statically resolved call, or "".
@@ -148,12 +260,56 @@ func calleeKey(p *packages.Package, call *ast.CallExpr) string {
 // unsafe.Pointer / uintptr type.
 func addressPrinting(p *packages.Package, call *ast.CallExpr) string {
 	key := calleeKey(p, call)
-	if !(strings.HasPrefix(key, "fmt.") || strings.HasSuffix(key, ".Wrapf") || strings.HasSuffix(key, ".Errorf") || strings.HasSuffix(key, "printf")) {
+	if !(strings.HasPrefix(key, "fmt.") || strings.HasSuffix(key, ".Wrapf") || strings.HasSuffix(key, ".Wrap") || strings.HasSuffix(key, ".Errorf") || strings.HasSuffix(key, "printf") ||
+		strings.HasSuffix(key, ".NewAttribute") || strings.HasSuffix(key, ".AppendAttributes")) {
 		return ""
 	}
-	for _, a := range call.Args {
-		if lit, ok := a.(*ast.BasicLit); ok && lit.Kind == token.STRING && strings.Contains(lit.Value, "%p") {
+	args := call.Args
+	if strings.HasPrefix(key, "fmt.Fp") && len(args) > 0 {
+		args = args[1:] // the writer
+	}
+	// the verbs of a constant format string, in argument order (`%T` prints the type only)
+	var verbs []byte
+	fmtIdx := -1
+	for i, a := range args {
+		if tv, ok := p.TypesInfo.Types[a]; ok && tv.Value != nil && tv.Value.Kind() == constant.String && strings.HasSuffix(key, "f") {
+			f := constant.StringVal(tv.Value)
+			fmtIdx = i
+			for j := 0; j < len(f); j++ {
+				if f[j] != '%' {
+					continue
+				}
+				j++
+				for j < len(f) && strings.IndexByte("+-# 0123456789.[]*", f[j]) >= 0 {
+					j++
+				}
+				if j < len(f) && f[j] != '%' {
+					verbs = append(verbs, f[j])
+				}
+			}
+			break
+		}
+	}
+	for i, a := range args {
+		verb := byte('v')
+		if fmtIdx >= 0 {
+			if i <= fmtIdx {
+				continue
+			}
+			if k := i - fmtIdx - 1; k < len(verbs) {
+				verb = verbs[k]
+			}
+		}
+		if verb == 'p' {
 			return "%p"
+		}
+		if verb == 'T' {
+			continue
+		}
+		if tv, ok := p.TypesInfo.Types[a]; ok && tv.Type != nil && tv.Value == nil {
+			if _, isIface := tv.Type.Underlying().(*types.Interface); !isIface && printsAddress(tv.Type, 0, map[types.Type]bool{}) {
+				return "value containing a pointer: " + typeStr(tv.Type)
+			}
 		}
 		if tv, ok := p.TypesInfo.Types[a]; ok && tv.Type != nil {
 			switch t := tv.Type.Underlying().(type) {
@@ -185,6 +341,40 @@ func scanProcessValues(p *packages.Package, fd *ast.FuncDecl, clocks clockSet, r
 		r, _ := filepath.Rel(repo, pos.Filename)
 		res = append(res, site{Pkg: rel, Func: funcName(fd), Kind: kind, Expr: expr, Where: r + ":" + itoa(pos.Line)})
 	}
+	// the process's time zone: `time.Local`, `t.Local()`, and `time.Unix*(…)` values (zone = Local) that are used for anything
+	// but zone-independent arithmetic — their String / Format depends on $TZ
+	zoneFree := map[string]bool{"UTC": true, "Unix": true, "UnixNano": true, "UnixMilli": true, "UnixMicro": true, "Before": true, "After": true,
+		"Equal": true, "Sub": true, "IsZero": true, "Compare": true, "Add": true}
+	var stack []ast.Node
+	ast.Inspect(fd.Body, func(n ast.Node) bool {
+		if n == nil {
+			stack = stack[:len(stack)-1]
+			return true
+		}
+		stack = append(stack, n)
+		switch x := n.(type) {
+		case *ast.SelectorExpr:
+			if v, ok := p.TypesInfo.Uses[x.Sel].(*types.Var); ok && v.Pkg() != nil && v.Pkg().Path() == "time" && v.Name() == "Local" {
+				add(x, "envRead", "time.Local (time zone of the process)")
+			}
+		case *ast.CallExpr:
+			switch calleeKey(p, x) {
+			case "time.Time.Local":
+				add(x, "envRead", "time.Time.Local (time zone of the process)")
+			case "time.Unix", "time.UnixMilli", "time.UnixMicro":
+				ok := false
+				if len(stack) >= 2 {
+					if se, isSel := stack[len(stack)-2].(*ast.SelectorExpr); isSel && se.X == n && zoneFree[se.Sel.Name] {
+						ok = true
+					}
+				}
+				if !ok {
+					add(x, "envRead", calleeKey(p, x)+" (a time value in the process's time zone)")
+				}
+			}
+		}
+		return true
+	})
 	ast.Inspect(fd.Body, func(n ast.Node) bool {
 		call, ok := n.(*ast.CallExpr)
 		if !ok {
@@ -192,20 +382,20 @@ func scanProcessValues(p *packages.Package, fd *ast.FuncDecl, clocks clockSet, r
 		}
 		key := calleeKey(p, call)
 		if what, ok := clocks[key]; ok {
-			add(call, "timeNow", key+" (calls "+what+")")
+			add(call, sourceKind(what), key+" (calls "+what+")")
 		}
 		if processValueCalls[key] {
-			add(call, "procValue", key)
+			add(call, procKind(key), key)
 		}
 		if how := addressPrinting(p, call); how != "" {
-			add(call, "procValue", "format "+how)
+			add(call, "pointerFormat", "format "+how)
 		}
 		// uintptr(unsafe.Pointer(x)): an address turned into a number
 		if tv, ok := p.TypesInfo.Types[call.Fun]; ok && tv.IsType() && len(call.Args) == 1 {
 			if b, ok := tv.Type.Underlying().(*types.Basic); ok && b.Kind() == types.Uintptr {
 				if atv, ok := p.TypesInfo.Types[call.Args[0]]; ok {
 					if ab, ok := atv.Type.Underlying().(*types.Basic); ok && ab.Kind() == types.UnsafePointer {
-						add(call, "procValue", "uintptr(unsafe.Pointer)")
+						add(call, "pointerFormat", "uintptr(unsafe.Pointer)")
 					}
 				}
 			}
